@@ -61,7 +61,8 @@ check("C07", "immut+hypothesis", "exploration",
       "every live field must equal its construction-time byte snapshot (taken by a non-perturbing read) and every operator "
       "must still give snapshot-consistent results; a write may only succeed on a documented copy.",
       "Not generated because outside the statement: re-enabling flags.writeable by hand, writing through another alias of "
-      "the same memory (the base of a view that was passed in). CPU arrays only.",
+      "the same memory (the base of a view that was passed in). CPU arrays only. One open known finding: numpy's ufunc.at "
+      "ignores the writeable flag, so np.add.at through a RAW numpy handle changes a field (not repairable inside NIFTy).",
       "deterministic simulation of an adversarial aliasing writer acting at arbitrary points of a construction history (Hypothesis-generated, snapshot reference model)",
       "DESIGN.md 3.6")
 
